@@ -39,6 +39,16 @@ OPT-IN extensions (absent / None = today's behaviour exactly):
                               `when` = any of the four phases; `to_observe` every m-th step). `sim.get_results()` is read
                               after every step.
 
+* `cfg["dt"] = {"std": h, "mods": [[h or None per state], …]}`
+                              a `DateTimeClock` instead of the `SimpleClock`: `start` / `step` / `stop` are whole HOURS
+                              since 2021-01-01 00:00 (start and stop multiples of 24, the minimum step a multiple of 3 –
+                              `step / 24` days is exact), `std` the standard step in hours (0 = none); `WStep` (component
+                              id 7) registers one step-size modifier per entry of `mods`: modifier j asks for
+                              `mods[j][state]` hours (None = NaT) for every simulant it is asked about, so the clock keeps
+                              PER-SIMULANT next-event times and the events carry only the due simulants. `entrance` /
+                              `exit` are stored as hours; seed strings carry `str(Timestamp)`, the index map is salted
+                              with the Timestamp.
+
 Everything stays exact: sixteenths / small dyadic factors, products of at most four of them.
 
 case (JSON): see `vcheck/props/whole.py::Whole.generate`.
@@ -67,8 +77,19 @@ FILTERS = ["", "tracked == True", 'wstate == "s1"', 'sex == "f" and tracked == T
 FILTER_COLUMNS = [[], ["tracked"], ["wstate"], ["sex", "tracked"], ["tracked"]]
 
 
+EPOCH = pd.Timestamp(2021, 1, 1)
+
+
+def tick(cfg, t):
+    """a clock value as an integer: itself (SimpleClock) or whole hours since 2021-01-01 (DateTimeClock)"""
+    if cfg.get("dt"):
+        h = (t - EPOCH) / pd.Timedelta(hours=1)
+        return int(h) if float(h) == int(h) else float(h)
+    return int(t)
+
+
 def step_number(cfg, clock):
-    return (int(clock) - cfg["start"]) // cfg["step"]
+    return (tick(cfg, clock) - cfg["start"]) // cfg["step"]
 
 
 class WPop(Component):
@@ -107,7 +128,7 @@ class WPop(Component):
             key = (k / float(2 ** B)) if cfg["keyFloat"] else k.astype("int64")
         else:
             key = pd.Series([], dtype=float if cfg["keyFloat"] else "int64", index=idx)
-        df = pd.DataFrame({"key": key, "entrance": pd.Series(pop_data.creation_time, index=idx, dtype="int64")}, index=idx)
+        df = pd.DataFrame({"key": key, "entrance": pd.Series(tick(cfg, pop_data.creation_time), index=idx, dtype="int64")}, index=idx)
         if cfg.get("age"):
             if n:
                 df["age"] = np.floor(d * float(2 ** cfg["age"]["bits"])).astype("int64")
@@ -216,7 +237,7 @@ class WMort(Component):
             table = self.cfg["mortP"]
             p = np.array([table[SEXES.index(s)][STATE_NAMES.index(w)] / 16.0 for s, w in zip(pop["sex"], pop["wstate"])], dtype=float)
         dead = self.rs.filter_for_probability(pop.index, p)
-        self.population_view.update(pd.DataFrame({"tracked": False, "exit": float(event.time)}, index=dead))
+        self.population_view.update(pd.DataFrame({"tracked": False, "exit": float(tick(self.cfg, event.time))}, index=dead))
 
 
 class WTransition(Transition):
@@ -398,7 +419,33 @@ class WObserver(Observer):
             builder.results.register_adding_observation(requires_columns=sorted(cols), **kw)
 
 
-COMPONENTS = {0: WPop, 1: WMort, 2: WDisease, 3: WObserver, 4: WMod0, 5: WMod1, 6: WMod2}
+class WStep(Component):
+    """step-size modifiers by disease state (`cfg["dt"]["mods"]`); the view includes `tracked`, so it is not filtered"""
+
+    def __init__(self, cfg):
+        super().__init__()
+        self.cfg = cfg
+
+    @property
+    def name(self):
+        return "wstep"
+
+    @property
+    def columns_required(self):
+        return ["wstate", "tracked"]
+
+    def setup(self, builder):
+        for j in range(len(self.cfg["dt"]["mods"])):
+            builder.time.register_step_size_modifier(lambda index, j=j: self.ask(j, index), requires_columns=["wstate"])
+
+    def ask(self, j, index):
+        spec = self.cfg["dt"]["mods"][j]
+        st = self.population_view.get(index)["wstate"]
+        vals = [spec[STATE_NAMES.index(w)] for w in st]
+        return pd.Series([pd.NaT if v is None else pd.Timedelta(hours=v) for v in vals], index=index, dtype="timedelta64[ns]")
+
+
+COMPONENTS = {0: WPop, 1: WMort, 2: WDisease, 3: WObserver, 4: WMod0, 5: WMod1, 6: WMod2, 7: WStep}
 
 
 def build(cfg):
@@ -409,15 +456,20 @@ def configuration(cfg):
     rnd = {"map_size": cfg["mapSize"], "random_seed": cfg["seed"], "key_columns": [KEY_COLUMN_NAMES[k] for k in cfg["keyCols"]]}
     if cfg.get("addSeed") is not None:
         rnd["additional_seed"] = cfg["addSeed"]
-    out = {"population": {"population_size": cfg["pop"]}, "randomness": rnd,
-           "time": {"start": cfg["start"], "end": cfg["stop"], "step_size": cfg["step"]}}
+    if cfg.get("dt"):
+        time = {"start": {"year": 2021, "month": 1, "day": 1 + cfg["start"] // 24}, "end": {"year": 2021, "month": 1, "day": 1 + cfg["stop"] // 24},
+                "step_size": cfg["step"] / 24.0, "standard_step_size": (cfg["dt"]["std"] / 24.0) if cfg["dt"].get("std") else None}
+    else:
+        time = {"start": cfg["start"], "end": cfg["stop"], "step_size": cfg["step"]}
+    out = {"population": {"population_size": cfg["pop"]}, "randomness": rnd, "time": time}
     if cfg.get("obs") and cfg["obs"].get("defaults"):
         out["stratification"] = {"default": list(cfg["obs"]["defaults"])}
     return out
 
 
-def plugins():
-    return {"required": {"clock": {"controller": "vivarium.framework.time.SimpleClock",
+def plugins(cfg=None):
+    clock = "DateTimeClock" if cfg and cfg.get("dt") else "SimpleClock"
+    return {"required": {"clock": {"controller": "vivarium.framework.time." + clock,
                                    "builder_interface": "vivarium.framework.time.TimeInterface"}}}
 
 
@@ -513,7 +565,7 @@ def classify(e):
 def make_context(cfg):
     SimulationContext._clear_context_cache()
     comps = build(cfg)
-    sim = SimulationContext(None, comps, configuration(cfg), plugins(), logging_verbosity=0)
+    sim = SimulationContext(None, comps, configuration(cfg), plugins(cfg), logging_verbosity=0)
     sim._wk_components = comps          # the kit's own handle on its probe components (read-only use: logs)
     return sim
 
@@ -529,7 +581,7 @@ def positions(sim, labels):
         return None
 
 
-def collisions(sim):
+def collisions(sim, cfg=None):
     """number of registered simulants whose position is not the first hash of their key (real `_hash` with the creation
     clock as salt): 0 = no collision had to be resolved; None = no CRN / not computable"""
     try:
@@ -542,14 +594,14 @@ def collisions(sim):
         for t in sorted(set(int(x) for x in pop["entrance"])):
             labels = [int(l) for l in pop.index[pop["entrance"] == t]]
             sub = m[m.index.get_level_values(im.SIM_INDEX_COLUMN).isin(labels)]
-            first = im._hash(sub.index.droplevel(im.SIM_INDEX_COLUMN), salt=t)
+            first = im._hash(sub.index.droplevel(im.SIM_INDEX_COLUMN), salt=(EPOCH + pd.Timedelta(hours=t)) if cfg and cfg.get("dt") else t)
             n += int((first.to_numpy() != sub.to_numpy()).sum())
         return n
     except Exception:  # noqa: BLE001
         return None
 
 
-def first_hashes(sim):
+def first_hashes(sim, cfg=None):
     """[label, position, first hash (real `_hash` of the key with the creation clock as salt), entrance] per registered
     simulant; None without CRN / when not computable"""
     try:
@@ -562,7 +614,7 @@ def first_hashes(sim):
         for t in sorted(set(int(x) for x in pop["entrance"])):
             labels = [int(l) for l in pop.index[pop["entrance"] == t]]
             sub = m[m.index.get_level_values(im.SIM_INDEX_COLUMN).isin(labels)]
-            first = im._hash(sub.index.droplevel(im.SIM_INDEX_COLUMN), salt=t)
+            first = im._hash(sub.index.droplevel(im.SIM_INDEX_COLUMN), salt=(EPOCH + pd.Timedelta(hours=t)) if cfg and cfg.get("dt") else t)
             for lab, p, f in zip(sub.index.get_level_values(im.SIM_INDEX_COLUMN), sub.to_numpy(), first.to_numpy()):
                 out.append([int(lab), int(p), int(f), t])
         return sorted(out)
@@ -577,7 +629,7 @@ def run(cfg, mode="step"):
     Returns {"init": table | None, "steps": [table...], "clocks": [...], "error": None | {"at": k, "class": c, "msg": m},
              "positions_by_stage": [...], "positions": after the last completed stage, "size": block size, "collisions": n}"""
     out = {"init": None, "steps": [], "clocks": [], "error": None, "positions": None, "positions_by_stage": [], "size": None,
-           "mode": mode, "collisions": None, "first_hashes": None, "results": [], "pvals": []}
+           "mode": mode, "collisions": None, "first_hashes": None, "results": [], "pvals": [], "clk": []}
     sim = make_context(cfg)
 
     def record():
@@ -586,6 +638,13 @@ def run(cfg, mode="step"):
             out["results"].append(canon_results(cfg, sim))
         except Exception as e:  # noqa: BLE001
             out["results"].append({"_error": f"{type(e).__name__}: {e}"[:200]})
+        if cfg.get("dt"):
+            try:
+                pop = sim.get_population(True)
+                out["clk"].append([tick(cfg, sim._clock.step_size + EPOCH)] +
+                                  [[int(l), tick(cfg, r["next_event_time"]), tick(cfg, r["step_size"] + EPOCH)] for l, r in pop.iterrows()])
+            except Exception as e:  # noqa: BLE001
+                out["clk"].append(["error", f"{type(e).__name__}: {e}"[:200]])
         try:
             m = [c for c in getattr(sim, "_wk_components", []) if isinstance(c, WMort)]
             out["pvals"].append(getattr(m[0], "plog", None) if m else None)
@@ -605,7 +664,7 @@ def run(cfg, mode="step"):
         return out
     pop = sim.get_population(True)
     out["init"] = canon_table(cfg, pop)
-    out["clocks"].append(int(sim.current_time))
+    out["clocks"].append(tick(cfg, sim.current_time))
     out["positions_by_stage"].append(positions(sim, list(pop.index)))
     record()
     if mode == "init":
@@ -619,11 +678,13 @@ def run(cfg, mode="step"):
             return out
         pop = sim.get_population(True)
         out["steps"].append(canon_table(cfg, pop))
-        out["clocks"].append(int(sim.current_time))
+        out["clocks"].append(tick(cfg, sim.current_time))
         out["positions_by_stage"].append(positions(sim, list(pop.index)))
         record()
     else:
         for k in range(n):
+            if cfg.get("dt") and tick(cfg, sim.current_time) >= cfg["stop"]:
+                break                                   # per-simulant clocks: the number of steps is not known in advance
             try:
                 sim.step()
             except Exception as e:  # noqa: BLE001
@@ -631,13 +692,13 @@ def run(cfg, mode="step"):
                 break
             pop = sim.get_population(True)
             out["steps"].append(canon_table(cfg, pop))
-            out["clocks"].append(int(sim.current_time))
+            out["clocks"].append(tick(cfg, sim.current_time))
             out["positions_by_stage"].append(positions(sim, list(pop.index)))
             record()
     if out["error"] is None:
         out["positions"] = out["positions_by_stage"][-1]
-        out["collisions"] = collisions(sim)
-        out["first_hashes"] = first_hashes(sim) if mode == "step" else None
+        out["collisions"] = collisions(sim, cfg)
+        out["first_hashes"] = first_hashes(sim, cfg) if mode == "step" else None
         try:
             sim.finalize()
         except Exception as e:  # noqa: BLE001
